@@ -21,6 +21,7 @@ type Engine struct {
 	ct      *ContractTable
 	prelude *Prelude
 	funcs   map[string]*ssa.Function
+	nonNilGlobal map[*ssa.Global]bool
 }
 
 type modelFn func(f *Frame, in ssa.Instruction, args []Val, o *blockOut, resT types.Type) Val
@@ -50,6 +51,7 @@ func LoadEngine(repo, preludePath string) (*Engine, error) {
 	for fn := range ssautil.AllFunctions(prog) {
 		eng.funcs[fn.String()] = fn
 	}
+	eng.findNonNilGlobals()
 	ct, err := LoadContracts(repo)
 	if err != nil {
 		return nil, err
@@ -61,6 +63,75 @@ func LoadEngine(repo, preludePath string) (*Engine, error) {
 	}
 	eng.prelude = pre
 	return eng, nil
+}
+
+// findNonNilGlobals records package-level variables of the module that are
+// assigned exactly once, in their package initialiser, with a value that cannot
+// be nil (errors.New, fmt.Errorf, &T{...}). Loads of such variables are non-nil.
+func (eng *Engine) findNonNilGlobals() {
+	eng.nonNilGlobal = map[*ssa.Global]bool{}
+	stores := map[*ssa.Global][]*ssa.Store{}
+	for _, fn := range eng.funcs {
+		if !eng.inRepo(fn) {
+			continue
+		}
+		for _, b := range fn.Blocks {
+			for _, in := range b.Instrs {
+				if st, ok := in.(*ssa.Store); ok {
+					if g, ok := st.Addr.(*ssa.Global); ok {
+						stores[g] = append(stores[g], st)
+					}
+				}
+			}
+		}
+	}
+	for g, ss := range stores {
+		if len(ss) != 1 || ss[0].Parent().Name() != "init" {
+			continue
+		}
+		v := ss[0].Val
+		if mi, ok := v.(*ssa.MakeInterface); ok {
+			v = mi.X
+		}
+		switch x := v.(type) {
+		case *ssa.Alloc:
+			eng.nonNilGlobal[g] = true
+		case *ssa.Call:
+			if sc := x.Call.StaticCallee(); sc != nil {
+				switch sc.String() {
+				case "errors.New", "fmt.Errorf":
+					eng.nonNilGlobal[g] = true
+				default:
+					if returnsFreshObject(sc) {
+						eng.nonNilGlobal[g] = true
+					}
+				}
+			}
+		}
+	}
+}
+
+// returnsFreshObject: every return of fn (single result) yields a freshly allocated object.
+func returnsFreshObject(fn *ssa.Function) bool {
+	if fn.Blocks == nil || fn.Signature.Results().Len() != 1 {
+		return false
+	}
+	n := 0
+	for _, b := range fn.Blocks {
+		for _, in := range b.Instrs {
+			if r, ok := in.(*ssa.Return); ok {
+				n++
+				v := r.Results[0]
+				if mi, ok := v.(*ssa.MakeInterface); ok {
+					v = mi.X
+				}
+				if _, ok := v.(*ssa.Alloc); !ok {
+					return false
+				}
+			}
+		}
+	}
+	return n > 0
 }
 
 func (eng *Engine) inRepo(fn *ssa.Function) bool {
@@ -107,6 +178,7 @@ var effectFreePrefixes = []string{
 	"(*golang.org/x/sync/semaphore.Weighted).", "(net/http.Header).", "net/http.Error", "(net/http.ResponseWriter).", "net/http.StatusText",
 	"google.golang.org/protobuf/proto.Size", "google.golang.org/protobuf/proto.Marshal", "google.golang.org/protobuf/proto.Equal",
 	"(github.com/buchgr/bazel-remote/v2/cache.Logger).",
+	"(*sync.Mutex).", "(*sync.RWMutex).",
 }
 
 func (eng *Engine) effectFree(key string) bool {
@@ -139,6 +211,7 @@ func (eng *Engine) Verify(con *Contract) (*VC, error) {
 	vc := newVC(eng, fn, con)
 	vc.safetyN = map[string]int{}
 	vc.usedCallCl = map[string]bool{}
+	vc.allowPanic = con.AllowPanic
 	fr := newFrame(vc, fn, nil)
 	fr.top = true
 	fr.con = con
